@@ -170,7 +170,15 @@ pub enum Step {
     Clone { src: usize, dst: usize, link: bool },
     Unlink { i: usize },
     Drop { i: usize },
-    Slice { src: usize, v: Id, pred: Pred, seeds: Vec<u64> },
+    Slice {
+        src: usize,
+        v: Id,
+        pred: Pred,
+        seeds: Vec<u64>,
+        /// keep the slice as a live instance in this slot (judged by C01, C03 and the replicas of C19)
+        #[serde(default)]
+        keep: Option<usize>,
+    },
     Merge { dst: usize, src: usize, left: Id, right: Id },
     /// a script with at most one `$variable` (X), rendered with formatting `style`
     Script { i: usize, cmds: Vec<SCmd>, style: u8, var: usize },
@@ -278,6 +286,19 @@ pub struct Replay {
     pub original_plan_len: usize,
     pub sodg_rev: String,
     pub note: String,
+    /// runs of the same batch to execute in the same process before the plan (only when the
+    /// failure depends on state the code under test leaks from one graph to the next)
+    #[serde(default)]
+    pub prelude: Option<Prelude>,
+}
+
+#[derive(Serialize, Deserialize, Clone, Debug)]
+pub struct Prelude {
+    pub property: String,
+    pub seed: u64,
+    pub thorough: bool,
+    pub from: u64,
+    pub to: u64,
 }
 
 pub const N_SET: [usize; 6] = [1, 2, 3, 4, 7, 16];
